@@ -263,6 +263,9 @@ Section Switch.
     intros H1 H2. rewrite rhop_if, (proj2 (peq_false_iff _ _) H1), (proj2 (peq_false_iff _ _) H2). reflexivity.
   Qed.
 
+  Lemma rp_none p : match rp p with Some _ => false | None => true end = match p with Some _ => false | None => true end.
+  Proof. destruct p; reflexivity. Qed.
+
   Lemma rp_cases p : (if peq p (Some a) then Some b else if peq p (Some b) then Some a else p) = rp p.
   Proof. symmetry. apply rhop_if. Qed.
 
@@ -327,7 +330,6 @@ Section Switch.
       eexists _, A. split; [reflexivity|]. split; [exact HA|].
       unfold ptf. cbn [nnext nprev npar nkid nname nval]. rewrite Pn, Pp, Pr, Sn, Sp, Sr.
       unfold P1. cbn [nnext nprev npar nkid nname nval].
-      rewrite (subp_ab _ Sb1), (subp_ab _ Sb2).
       assert (H1 : peq (Some a) (rp (nprev B)) = false).
       { apply peq_false_iff. rewrite rhop_if. intros K.
         destruct (peq (nprev B) (Some a)) eqn:E1; [inversion K; congruence|].
@@ -363,7 +365,7 @@ Section Switch.
       rewrite Er. rewrite C. unfold c1. rewrite (proj2 (Nat.eqb_neq i a) Nia), (proj2 (Nat.eqb_neq i b) Nib), Hi.
       cbn [option_map]. eexists _, ci. split; [reflexivity|]. split; [reflexivity|].
       unfold ptf. cbn [nnext nprev npar nkid nname nval]. rewrite Pn, Pp, Pr, Sn, Sp, Sr.
-      rewrite !(peq_rp i _ Nia Nib).
+      rewrite !(peq_rp i _ Nia Nib), !rp_none.
       rewrite <- (lb_prev i ci a A Hi HA), <- (lb_prev i ci b B Hi HB).
       rewrite <- (lb_next i ci a A Hi HA), <- (lb_next i ci b B Hi HB).
       rewrite <- (lb_kid i ci a A Hi HA), <- (lb_kid i ci b B Hi HB).
@@ -375,56 +377,83 @@ Section Switch.
       + intros [K|K]; contradiction.
   Qed.
 
-  (* the children of a and b, and dead cells, are untouched *)
-  Lemma switch_kids h' :
+  (* a cell none of whose links names a or b is untouched; so is a dead cell *)
+  Lemma switch_same h' :
     (forall i, cells h' i = option_map (ptf b S2 i) (option_map (ptf a P1 i) (c1 i))) ->
-    forall i, (forall ci, cells h i = Some ci -> npar ci = Some a \/ npar ci = Some b) -> cells h' i = cells h i.
+    forall i ci, cells h i = Some ci -> i <> a -> i <> b ->
+    (forall x, x = a \/ x = b -> nnext ci <> Some x /\ nprev ci <> Some x /\ nkid ci <> Some x) ->
+    cells h' i = Some ci.
   Proof.
-    intros C i Hi.
+    intros C i ci Hci Nia Nib Hn.
     destruct P1_fields as (Pn & Pp & Pr). destruct S2_fields as (Sn & Sp & Sr).
-    destruct (cells h i) as [ci|] eqn:Hci.
-    2:{ rewrite C. unfold c1. destruct (Nat.eqb_spec i a) as [->|]; [congruence|].
-        destruct (Nat.eqb_spec i b) as [->|]; [congruence|]. rewrite Hci. reflexivity. }
-    specialize (Hi ci eq_refl).
-    assert (Nia : i <> a).
-    { intros ->. rewrite HA in Hci. inversion Hci; subst. destruct (lk_self _ _ _ La) as (_ & _ & K & _). destruct Hi; congruence. }
-    assert (Nib : i <> b).
-    { intros ->. rewrite HB in Hci. inversion Hci; subst. destruct (lk_self _ _ _ Lb) as (_ & _ & K & _). destruct Hi; congruence. }
     rewrite C. unfold c1. rewrite (proj2 (Nat.eqb_neq i a) Nia), (proj2 (Nat.eqb_neq i b) Nib), Hci.
     cbn [option_map]. f_equal. unfold ptf. cbn [nnext nprev npar nkid nname nval]. rewrite Pn, Pp, Pr, Sn, Sp, Sr.
-    rewrite !(peq_rp i _ Nia Nib).
+    rewrite !(peq_rp i _ Nia Nib), !rp_none.
     rewrite <- (lb_prev i ci a A Hci HA), <- (lb_prev i ci b B Hci HB).
     rewrite <- (lb_next i ci a A Hci HA), <- (lb_next i ci b B Hci HB).
     rewrite <- (lb_kid i ci a A Hci HA), <- (lb_kid i ci b B Hci HB).
-    (* a child of a (or b) has its siblings and children there too: none of its links names a or b *)
-    assert (Kn : forall x X, cells h x = Some X -> (x = a \/ x = b) -> peq (nnext ci) (Some x) = false /\
-                 peq (nprev ci) (Some x) = false /\ peq (nkid ci) (Some x) = false).
-    { intros x X Hx Hxab. repeat split; apply peq_false_iff; intros E.
-      - destruct (lk_next _ _ _ (LK i ci Hci) x E) as (m & Hm & _ & Ep). rewrite Hx in Hm. inversion Hm; subst m.
-        destruct Hxab as [-> | ->]; [rewrite HA in Hx|rewrite HB in Hx]; inversion Hx; subst X;
-          destruct Hi as [K|K]; rewrite K in Ep.
-        + destruct (lk_self _ _ _ La) as (_ & _ & S & _). congruence.
-        + congruence.
-        + congruence.
-        + destruct (lk_self _ _ _ Lb) as (_ & _ & S & _). congruence.
-      - destruct (lk_prev _ _ _ (LK i ci Hci) x E) as (m & Hm & _ & Ep). rewrite Hx in Hm. inversion Hm; subst m.
-        destruct Hxab as [-> | ->]; [rewrite HA in Hx|rewrite HB in Hx]; inversion Hx; subst X;
-          destruct Hi as [K|K]; rewrite K in Ep.
-        + destruct (lk_self _ _ _ La) as (_ & _ & S & _). congruence.
-        + congruence.
-        + congruence.
-        + destruct (lk_self _ _ _ Lb) as (_ & _ & S & _). congruence.
-      - destruct (lk_kid _ _ _ (LK i ci Hci) x E) as (m & Hm & Ep & _). rewrite Hx in Hm. inversion Hm; subst m.
-        (* x would be a child of i, i a child of a or b: the parent of a (b) is not below a or b *)
-        destruct Hxab as [-> | ->]; [rewrite HA in Hx|rewrite HB in Hx]; inversion Hx; subst X.
-        + destruct (lk_par _ _ _ La i Ep) as (m & Hm' & _). destruct Hi as [K|K].
-          * exact (no_cycle2 a i A ci HA Hci Ep K).
-          * exact (PAb_chain i ci Hci Ep K).
-        + destruct Hi as [K|K].
-          * exact (PBa_chain i ci Hci Ep K).
-          * exact (no_cycle2 b i B ci HB Hci Ep K). }
-    destruct (Kn a A HA (or_introl eq_refl)) as (K1 & K2 & K3).
-    destruct (Kn b B HB (or_intror eq_refl)) as (K4 & K5 & K6).
-    rewrite K1, K2, K3, K4, K5, K6. symmetry. apply node_eta.
+    destruct (Hn a (or_introl eq_refl)) as (K1 & K2 & K3). destruct (Hn b (or_intror eq_refl)) as (K4 & K5 & K6).
+    rewrite (proj2 (peq_false_iff _ _) K1), (proj2 (peq_false_iff _ _) K2), (proj2 (peq_false_iff _ _) K3),
+      (proj2 (peq_false_iff _ _) K4), (proj2 (peq_false_iff _ _) K5), (proj2 (peq_false_iff _ _) K6).
+    symmetry. apply node_eta.
+  Qed.
+
+  Lemma switch_dead h' :
+    (forall i, cells h' i = option_map (ptf b S2 i) (option_map (ptf a P1 i) (c1 i))) ->
+    forall i, cells h i = None -> cells h' i = None.
+  Proof.
+    intros C i Hi. rewrite C. unfold c1.
+    destruct (Nat.eqb_spec i a) as [->|]; [congruence|]. destruct (Nat.eqb_spec i b) as [->|]; [congruence|].
+    rewrite Hi. reflexivity.
   Qed.
 End Switch.
+
+(* ---------------------------------------------------------------- cells that do not mention a node *)
+Definition no_mention (x : nat) (nd : node) : Prop :=
+  nnext nd <> Some x /\ nprev nd <> Some x /\ nkid nd <> Some x.
+
+Definition nm_tree (x : nat) (t : tree) : Prop :=
+  forall par prv nxt, ~ In x (ids_t t) -> nxt <> Some x -> prv <> Some x ->
+  forall e, In e (exp_t par prv t nxt) -> no_mention x (snd e).
+
+Lemma tid_in_ids t : In (tid t) (ids_t t).
+Proof. destruct t. rewrite ids_t_eq. left. reflexivity. Qed.
+
+Lemma nm_list x : forall l par prv aft,
+  Forall (nm_tree x) l -> ~ In x (ids_f l) -> aft <> Some x -> prv <> Some x ->
+  forall e, In e (exp_l par prv l aft) -> no_mention x (snd e).
+Proof.
+  induction l as [|t r IH]; intros par prv aft F Hl Ha Hp e He; [contradiction|].
+  inversion F as [|? ? Ft Fr]; subst. rewrite ids_f_cons in Hl. rewrite exp_l_cons in He.
+  apply in_app_or in He. destruct He as [He|He].
+  - apply (Ft par prv (hid_or r aft)); auto.
+    + intros K. apply Hl. apply in_or_app. auto.
+    + destruct r as [|t' r']; cbn [hid_or]; [exact Ha|].
+      intros E. inversion E. apply Hl. apply in_or_app. right. rewrite ids_f_cons. apply in_or_app. left.
+      rewrite <- H0. apply tid_in_ids.
+  - apply (IH par (Some (tid t)) aft Fr); auto.
+    + intros K. apply Hl. apply in_or_app. auto.
+    + intros E. inversion E. apply Hl. apply in_or_app. left. rewrite <- H0. apply tid_in_ids.
+Qed.
+
+Lemma nm_tree_all x t : nm_tree x t.
+Proof.
+  induction t as [j n v k IH] using tree_ind'. intros par prv nxt Hx Hn Hp e He.
+  rewrite ids_t_eq in Hx. rewrite exp_t_eq in He. destruct He as [<-|He].
+  - cbn [snd]. repeat split; cbn [nnext nprev nkid]; auto.
+    intros E. apply Hx. right. apply hid_in_ids'. exact E.
+  - apply (nm_list x k (Some j) None None IH); auto; try discriminate.
+    intros K. apply Hx. right. exact K.
+Qed.
+
+Lemma rep_l_no_mention c x par prv l aft i ci :
+  rep_l c par prv l aft -> ~ In x (ids_f l) -> aft <> Some x -> prv <> Some x ->
+  In i (ids_f l) -> c i = Some ci -> no_mention x ci.
+Proof.
+  intros R Hx Ha Hp Hi Hc.
+  rewrite <- (keys_exp_l l par prv aft) in Hi. apply in_map_iff in Hi. destruct Hi as ([i' nd] & E & Hin). cbn in E. subst i'.
+  unfold rep_l, repc in R. rewrite Forall_forall in R. pose proof (R _ Hin) as E. cbn [fst snd] in E.
+  rewrite Hc in E. inversion E; subst nd.
+  apply (nm_list x l par prv aft) with (e := (i, ci)); auto.
+  apply Forall_forall. intros t _. apply nm_tree_all.
+Qed.
